@@ -140,6 +140,8 @@ class Grid3Scales(Grid):
             self.smoothing,
             wallCenter,
         )
+        # Grid.__init__ stored the wall thickness as positionFalloff; keep it in sync
+        self.positionFalloff = wallThickness
 
         self._cacheCoordinates()
 
